@@ -753,8 +753,15 @@ package eventbus
 //@ lockinv MemoryStore.mu(m) [MemInv.shape] {C10} m.subscriptions != nil && m.nextOffset == len(m.events) && wfslice(m.events)
 //@ lockinv MemoryStore.mu(m) [MemInv.offsets] {C10} forall i int :: {m.events[i]} 0 <= i && i < len(m.events) ==> m.events[i] != nil && allocated(m.events[i]) && m.events[i].Offset == pad20(i+1)
 
+// Abstraction: the abstract log of a memory store (the ghost handle log(m) the EventStore
+// interface contracts speak about) is exactly its event slice, with string order on offsets.
+//@ def MemAbs(m) logLen(log(m)) == len(m.events) && ordOf(log(m)) == memOrd() &&
+//@     (forall k int :: {m.events[k]} {logAt(log(m), k)} {offAt(log(m), k)} 0 <= k && k < len(m.events) ==> logAt(log(m), k) == m.events[k] && offAt(log(m), k) == m.events[k].Offset)
+//@ lockinv MemoryStore.mu(m) [MemInv.abs] {C10,C11,C12} MemAbs(m)
+
 //@ func NewMemoryStore
 //@   props C10
+//@   at exit ghostnew log(result) with logLen(log(result)) == 0 && ordOf(log(result)) == memOrd()
 //@   ensures [C10.new.isolated] result != nil && fresh(result) && len(result.events) == 0 && result.nextOffset == 0
 //@        && result.subscriptions != nil && fresh(result.subscriptions) && (forall id string :: !in(id, result.subscriptions))
 
@@ -769,11 +776,18 @@ package eventbus
 //@        m.events[len(m.events)-1].Type == event.Type && m.events[len(m.events)-1].Data == event.Data &&
 //@        m.events[len(m.events)-1].Timestamp == event.Timestamp && m.events[len(m.events)-1].Offset == pad20(len(m.events)) &&
 //@        fresh(m.events[len(m.events)-1])
+// the ghost update: a new log handle for the longer slice; its offsets are increasing (which is what makes such a handle exist)
+//@   at unlock:MemoryStore.mu assert [C10.append.wf.pad] forall a int, b int :: {m.events[a], m.events[b]} 0 <= a && a < b && b < len(m.events) ==> padLt(a + 1, b + 1)
+//@   at unlock:MemoryStore.mu assert [C10.append.wf] forall a int, b int :: {m.events[a], m.events[b]} 0 <= a && a < b && b < len(m.events) ==> m.events[a].Offset < m.events[b].Offset
+//@   at unlock:MemoryStore.mu ghostnew log(m) with MemAbs(m)
+//@   at unlock:MemoryStore.mu assert [C10.append.extends] logExtends(log(m), acq(log(m))) && logLen(log(m)) == logLen(acq(log(m))) + 1
 //@   at unlock:MemoryStore.mu assert [C10.append.frame] forall id string :: in(id, m.subscriptions) == acq(in(id, m.subscriptions)) && m.subscriptions[id] == acq(m.subscriptions[id])
 
 //@ def after(from, e) from == "" || from < e.Offset
+//@ def readP(m, res) ite(len(res) > 0, unpad20(res[0].Offset) - 1, len(m.events))
 //@ func (*MemoryStore).Read
 //@   props C10 C11
+//@   pathwise
 //@   requires m != nil
 //@   loop 1 invariant [idx] -1 <= rangeindex && rangeindex < len(m.events)
 //@   loop 1 invariant [ev.stable] m.events == loopentry(m.events) && seqeq(m.events, loopentry(m.events))
@@ -781,9 +795,26 @@ package eventbus
 //@   loop 1 invariant [len] 0 <= len(result) && len(result) <= rangeindex + 1 && (limit > 0 ==> len(result) < limit || len(result) == 0)
 //@   loop 1 invariant [block] (forall j int :: {m.events[j]} 0 <= j && j < rangeindex + 1 - len(result) ==> !after(from, m.events[j])) &&
 //@        (forall k int :: {result[k]} 0 <= k && k < len(result) ==> result[k] == m.events[rangeindex + 1 - len(result) + k] && after(from, result[k]))
+//@   loop 1 owned result
+//@   loop 1 invariant [oldest] from == "" ==> len(result) == rangeindex + 1
 //@   loop 1 invariant [last] lastOffset == ite(len(result) > 0, result[len(result)-1].Offset, from)
 //@   loop 1 invariant [first] len(result) > 0 ==> unpad20(result[0].Offset) - 1 == rangeindex + 1 - len(result)
 //@   ensures [C10.read.err] err == nil
+// refinement: what the EventStore.Read interface contract promises, for this implementation
+//@   at unlock:MemoryStore.mu assert [C10.read.pos.lo] forall k int :: {m.events[k]} 0 <= k && k < readP(m, result) ==> !after(from, m.events[k])
+//@   at unlock:MemoryStore.mu assert [C10.read.pos.hi] forall k int :: {m.events[k]} readP(m, result) <= k && k < len(m.events) ==> after(from, m.events[k])
+//@   at unlock:MemoryStore.mu assert [C10.read.pos.mark] readP(m, result) < len(m.events) ==> strMark(offAt(log(m), readP(m, result)))
+//@   at unlock:MemoryStore.mu assert [C10.read.pos] posOf(log(m), from) == readP(m, result)
+//@   at unlock:MemoryStore.mu assert [C10.read.r1] posOf(log(m), from) + len(result) <= logLen(log(m))
+//@   at unlock:MemoryStore.mu assert [C10.read.r2a] len(result) > 0 ==> readP(m, result) + len(result) <= len(m.events) &&
+//@        (forall k int :: {result[k]} 0 <= k && k < len(result) ==> result[k] == m.events[readP(m, result) + k] && result[k] != nil)
+//@   at unlock:MemoryStore.mu assert [C10.read.r2] forall k int :: {result[k]} 0 <= k && k < len(result) ==> result[k] == logAt(log(m), posOf(log(m), from) + k) && result[k] != nil
+//@   at unlock:MemoryStore.mu assert [C10.read.r4] (limit <= 0 || len(result) < limit) ==> posOf(log(m), from) + len(result) == logLen(log(m))
+//@   at unlock:MemoryStore.mu assert [C10.read.r5a] len(result) > 0 ==> lastOffset == offAt(log(m), posOf(log(m), from) + len(result) - 1) && lastOffset == m.events[posOf(log(m), from) + len(result) - 1].Offset
+//@   at unlock:MemoryStore.mu assert [C10.read.r5] len(result) > 0 ==> (forall L2 ref :: {logExtends(L2, log(m))} logExtends(L2, log(m)) ==>
+//@        strMark(offAt(L2, posOf(log(m), from) + len(result))) && offAt(L2, posOf(log(m), from) + len(result) - 1) == lastOffset && posOf(L2, lastOffset) == posOf(log(m), from) + len(result))
+//@   at unlock:MemoryStore.mu assert [C10.read.refines] readOK(log(m), from, limit, result, lastOffset)
+//@   ensures [C10.read.owned] owned(result0)
 //@   ensures [C10.read.next] result1 == ite(len(result0) > 0, result0[len(result0)-1].Offset, from)
 //@   ensures [C10.read.limit] limit > 0 ==> len(result0) <= limit
 //@   ensures [C10.read.block] len(result0) > 0 ==> 0 <= unpad20(result0[0].Offset) - 1 && unpad20(result0[0].Offset) - 1 + len(result0) <= len(acq(m.events)) &&
